@@ -49,45 +49,55 @@ def norm_abs(s):
     return " ".join(s.split())
 
 
-def wf_oracle(nap, o):
-    """the statement of C04 on one real object; returns None or a description"""
+def wf_check(nap, o):
+    """the statement of C04 on one real object: None, or (clause, description, zero_span) where clause names the clause of the
+    statement that fails (canonical_support, sorted, one_row_per_timestamp, inside_support, rate, group_support) and zero_span tells
+    that the object is a non-empty series whose timestamps all coincide and whose support is EMPTY (the default support
+    IntervalSet(t0, t0) of a series built without time_support)"""
     if isinstance(o, nap.IntervalSet):
         v = np.asarray(o.values)
         if not (all(v[i, 0] < v[i, 1] for i in range(len(v))) and all(v[i, 1] < v[i + 1, 0] for i in range(len(v) - 1))):
-            return "IntervalSet not canonical"
+            return ("canonical_support", "IntervalSet not canonical", False)
         return None
     if isinstance(o, nap.TsGroup):
         sup = np.asarray(o.time_support.values)
-        keys = list(o.keys())
-        if keys != sorted(keys):
-            return "TsGroup keys not sorted"
+        keys = list(o.keys())       # (their order is C12's clause, not C04's)
         for k in keys:
             m = o[k]
-            r = wf_oracle(nap, m)
+            r = wf_check(nap, m)
             if r:
-                return "member %s: %s" % (k, r)
+                return (r[0], "member %s: %s" % (k, r[1]), r[2])
             if len(m) and not np.array_equal(np.asarray(m.time_support.values), sup):
-                return "non-empty member %s does not carry the group's time support" % k
-        return wf_oracle(nap, o.time_support)
+                return ("group_support", "non-empty member %s does not carry the group's time support" % k, False)
+        r = wf_check(nap, o.time_support)
+        return ("canonical_support", "group support: " + r[1], False) if r else None
     t = np.asarray(o.t)
     if len(t) > 1 and not np.all(np.diff(t) >= 0):
-        return "timestamps not sorted"
+        return ("sorted", "timestamps not sorted", False)
     if hasattr(o, "values") and len(o.values) != len(t):
-        return "number of data rows differs from number of timestamps"
+        return ("one_row_per_timestamp", "number of data rows differs from number of timestamps", False)
     sup = np.asarray(o.time_support.values)
-    r = wf_oracle(nap, o.time_support)
+    r = wf_check(nap, o.time_support)
     if r:
-        return "support: " + r
-    if len(t) and len(sup) == 0 and float(t[0]) == float(t[-1]):
-        return "zero-span series (all timestamps equal) built without a time support: its default support IntervalSet(t0, t0) is empty, so its samples lie outside it"
+        return ("canonical_support", "support: " + r[1], False)
+    zero_span = bool(len(t) and len(sup) == 0 and float(t[0]) == float(t[-1]))
     for x in t:
         if not any(s <= x <= e for s, e in sup):
-            return "timestamp %r outside the time support" % float(x)
+            if zero_span:
+                return ("inside_support", "zero-span series (all timestamps equal) built without a time support: its default support IntervalSet(t0, t0) is empty, so its samples "
+                        "lie outside it (and its rate is n / 0)", True)
+            return ("inside_support", "timestamp %r outside the time support" % float(x), False)
     if len(t):
         tot = np.sum(sup[:, 1] - sup[:, 0])
         if not (o.rate == len(t) / tot):
-            return "rate %r != n / total support duration %r" % (float(o.rate), float(len(t) / tot))
+            return ("rate", "rate %r != n / total support duration %r" % (float(o.rate), float(len(t) / tot)), False)
     return None
+
+
+def wf_oracle(nap, o):
+    """the statement of C04 on one real object; returns None or a description"""
+    r = wf_check(nap, o)
+    return r[1] if r else None
 
 
 def snapshot(nap, o):
@@ -212,10 +222,10 @@ def apply_real(R, op, rng, hook=None):
         mask = [rng.randint(0, 1) for _ in range(n)]
         if k == "T":
             y = nap.Tsd(np.asarray(x.t), np.asarray(mask, dtype=float), time_support=x.time_support)
-            o = y.threshold(0.5) if n else y
+            o = y.threshold(0.5)
         else:
             y = nap.Tsd(np.asarray(x.t), np.asarray([1.0 if m else np.nan for m in mask]), time_support=x.time_support)
-            o = y.dropna() if n else y
+            o = y.dropna()
         code = "%s %d : %s" % (k, a[0], C.fmt_ints(mask))
     elif k == "U":
         o = R.ep_of(a[0]).union(R.ep_of(a[1])); code = "U %d %d" % a
@@ -225,6 +235,8 @@ def apply_real(R, op, rng, hook=None):
         o = R.ep_of(a[0]).set_diff(R.ep_of(a[1])); code = "F %d %d" % a
     elif k == "TS":
         e = R.ep_of(a[0])
+        # IntervalSet([], []).time_span() raises IndexError (no object is produced: outside C04's statement); the model returns the empty set.
+        # The call is not made; run_history counts these steps (skipped_time_span_of_empty_set)
         o = e.time_span() if len(e) else e
         code = "TS %d" % a[0]
     elif k == "DS":
@@ -236,27 +248,132 @@ def apply_real(R, op, rng, hook=None):
     return o, code
 
 
-UNMODELLED = ["make_group", "make_group", "bin_average", "interpolate", "convolve", "smooth", "numpy_ufunc", "numpy_func", "concatenate", "split_concat", "to_tsgroup_to_tsd",
-              "tsgroup_restrict", "tsgroup_getby", "merge_group", "shift", "jitter", "resample", "shuffle", "perievent", "slice_index", "mask_index",
-              "tsdframe_cols", "find_support", "ep_split", "in_interval", "trial_count", "frame_bin_average", "raw_support", "raw_support"]
+UNMODELLED = ["as_class", "core_any_class", "dropna_threshold", "make_group", "make_group", "bin_average", "interpolate", "convolve", "smooth", "numpy_ufunc", "numpy_func", "numpy_shape",
+              "concatenate", "split_concat", "to_tsgroup_to_tsd", "tsgroup_restrict", "tsgroup_getby", "merge_group", "shift", "jitter", "resample", "shuffle", "randomize_group",
+              "perievent", "slice_index", "mask_index", "tsdframe_cols", "find_support", "ep_split", "in_interval", "trial_count", "frame_bin_average", "raw_support", "raw_support",
+              "off_lattice"]
+
+CLASSES = ("Ts", "Tsd", "TsdFrame", "TsdTensor")
 
 
-def apply_unmodelled(R, name, rng):
-    """runs one unmodelled operation on objects of the real store; returns a list of result objects (possibly empty)"""
+def class_name(nap, o):
+    for c in ("TsdTensor", "TsdFrame", "Tsd", "Ts", "TsGroup", "IntervalSet"):
+        if isinstance(o, getattr(nap, c)):
+            return c
+    return type(o).__name__
+
+
+def as_class(nap, x, cls, sup=None):
+    """x's timestamps under another of the four classes, through the public constructor (values are fresh), with x's support or the
+    given one (the constructor then drops the samples outside it)"""
+    t = np.asarray(x.t)
+    n = len(t)
+    sup = x.time_support if sup is None else sup
+    if cls == "Ts":
+        return nap.Ts(t, time_support=sup)
+    if cls == "Tsd":
+        return nap.Tsd(t, np.arange(n, dtype=float) + 1, time_support=sup)
+    if cls == "TsdFrame":
+        v = np.arange(n, dtype=float) + 1
+        return nap.TsdFrame(t, np.stack([v, v * 2, v * 3], 1), time_support=sup, columns=["a", "b", "c"])
+    return nap.TsdTensor(t, (np.arange(n * 4, dtype=float) + 1).reshape(n, 2, 2), time_support=sup)
+
+
+def pick_series(R, rng):
+    """ANY series of the store: all four classes, empty, one-sample, duplicate-timestamp and support-less ones included.
+    The draws are spread over series with >= 2 samples, series with <= 1 sample, series with duplicate timestamps, and the whole store."""
     nap = R.nap
-    series = [o for o in R.objs + R.extra if isinstance(o, (nap.Tsd, nap.Ts)) and len(o) >= 2 and len(o.time_support)]
-    eps = [o for o in R.objs + R.extra if isinstance(o, nap.IntervalSet) and len(o)]
-    if not series:
+    pool = [o for o in R.objs + R.extra if isinstance(o, (nap.Ts, nap.Tsd, nap.TsdFrame, nap.TsdTensor))]
+    if not pool:
+        return None
+    r = rng.random()
+    big = [o for o in pool if len(o) >= 2]
+    if big and r < 0.45:
+        return rng.choice(big)
+    small = [o for o in pool if len(o) <= 1]
+    if small and r < 0.62:
+        return rng.choice(small)
+    dup = [o for o in big if np.any(np.diff(np.asarray(o.t)) == 0)]
+    if dup and r < 0.72:
+        return rng.choice(dup)
+    return rng.choice(pool)
+
+
+def unmodelled_calls(R, name, rng, info=None):
+    """one unmodelled operation on objects of the real store: returns a list of (sub-operation label, thunk); every thunk is one public
+    call (or a short chain) whose result - an object, or a list / dict of objects - is checked and fed to later operations.
+    `info` (a dict) receives the class and size class of the input that was drawn."""
+    nap = R.nap
+    x = pick_series(R, rng)
+    if x is None:
         return []
-    x = rng.choice(series)
-    ep = rng.choice(eps) if eps else x.time_support
-    xd = x if isinstance(x, nap.Tsd) else nap.Tsd(np.asarray(x.t), np.arange(len(x), dtype=float), time_support=x.time_support)
+    y = pick_series(R, rng)
+    eps = [o for o in R.objs + R.extra if isinstance(o, nap.IntervalSet)]
+    ep = rng.choice(eps) if eps and rng.random() < 0.85 else x.time_support      # possibly empty
+    # the input under a class drawn at random (a stored TsdFrame / TsdTensor / Ts is used as it is half of the time)
+    cls = class_name(nap, x)
+    if rng.random() < 0.5:
+        cls = rng.choice(CLASSES)
+        X = x if cls == class_name(nap, x) else as_class(nap, x, cls)
+    else:
+        X = x
+    XD = X if cls != "Ts" else as_class(nap, X, "Tsd")       # a data-carrying version
+    xd = X if cls == "Tsd" else as_class(nap, X, "Tsd")      # a 1-d version
+    xts = X if cls == "Ts" else as_class(nap, X, "Ts")
+    yd = y if isinstance(y, nap.Tsd) else as_class(nap, y, "Tsd")
+    n = len(X)
+    if info is not None:
+        info.update({"cls": cls, "len": "0" if n == 0 else "1" if n == 1 else "2+", "support": "empty" if len(X.time_support) == 0 else "1" if len(X.time_support) == 1 else "2+",
+                     "dup": bool(n >= 2 and np.any(np.diff(np.asarray(X.t)) == 0)), "zero_span_input": bool(n >= 1 and float(X.t[0]) == float(X.t[-1]))})
     b = (rng.choice([1, 2, 3]) * 2 * U2) / 1e9
+    t0 = float(X.t[0]) if n else 0.0
+    t1 = float(X.t[-1]) if n else 10 * U2 / 1e9
+    out = []
+
+    def add(sub, f):
+        out.append((sub, f))
+
+    if name == "as_class":
+        for c in CLASSES:
+            add("as_" + c, lambda c=c: as_class(nap, x, c))
+        return out
+    if name == "core_any_class":
+        # the modelled operations, on all four classes and on degenerate inputs
+        a_, b_ = sorted(rng.choices(range(-1, NPT + 1), k=2))
+        add("restrict", lambda: X.restrict(ep))
+        add("get_window", lambda: X.get(lat(a_) / 1e9, lat(b_) / 1e9))
+        add("get_point_window", lambda: X.get(t0, t0))
+        add("get_nearest", lambda: X.get(lat(a_) / 1e9))
+        add("count_ep", lambda: X.count(b, ep))
+        add("count", lambda: X.count(b))
+        add("count_nobin", lambda: X.count(ep=ep))
+        add("value_from_ep", lambda: X.value_from(yd, ep))
+        add("value_from", lambda: X.value_from(yd))
+        add("copy", lambda: X.copy())
+        add("support", lambda: X.time_support)
+        add("time_support_ctor", lambda: as_class(nap, X.restrict(ep), cls))
+        add("ctor_dropping_samples_outside", lambda: as_class(nap, X, cls, ep))
+        return out
+    if name == "dropna_threshold":
+        if cls == "Ts":
+            add("fillna", lambda: X.fillna(2.0))
+            return out
+        v = np.array(XD.values, dtype=float, copy=True)
+        m = np.array([rng.random() < 0.4 for _ in range(n)], dtype=bool)
+        v[m] = np.nan
+        XN = XD.__class__(np.asarray(XD.t), v, time_support=XD.time_support)
+        add("with_nan", lambda: XN)
+        add("dropna", lambda: XN.dropna())
+        add("dropna_keep_support", lambda: XN.dropna(update_time_support=False))
+        thr = float(np.median(xd.values)) if n else 0.5
+        add("threshold_above", lambda: xd.threshold(thr))
+        add("threshold_below", lambda: xd.threshold(thr, "below"))
+        add("threshold_aboveequal", lambda: xd.threshold(thr, "aboveequal"))
+        return out
     if name == "raw_support":
         # a support given as RAW start/end arrays (overlapping, touching, chained so that a merged end meets the next start):
         # the constructor must normalise it before it reaches a series
-        import warnings as _w
-        lo = int(round(float(x.t[0]) * 1e9)) // U2
+        lo = int(round(t0 * 1e9)) // U2
         pts = sorted(rng.sample(range(lo - 2, lo + 14), rng.choice([4, 5, 6])))
         k = rng.choice([3, 4])
         st = [pts[0]]
@@ -266,64 +383,149 @@ def apply_unmodelled(R, name, rng):
             en.append(e)
             st.append(rng.choice([e - 1, e - 1, e, e, e + 1]) if e - 1 > st[-1] else e)
         st = st[:k]
-        with _w.catch_warnings():
-            _w.simplefilter("ignore")
+        with warnings.catch_warnings():
+            warnings.simplefilter("ignore")
             raw = nap.IntervalSet(start=np.array(st) * U2 / 1e9, end=np.array(en) * U2 / 1e9)
-            return [raw, x.restrict(raw), nap.Ts(np.asarray(x.t), time_support=raw), xd.restrict(raw).count(b)]
+        add("ctor", lambda: raw)
+        add("restrict", lambda: X.restrict(raw))
+        add("as_time_support", lambda: as_class(nap, X, cls, raw))
+        add("ts_as_time_support", lambda: nap.Ts(np.asarray(X.t), time_support=raw))
+        add("restrict_count", lambda: X.restrict(raw).count(b))
+        return out
     if name == "bin_average":
-        return [xd.bin_average(b, ep)]
+        if cls == "Ts":
+            return out
+        add("ep", lambda: X.bin_average(b, ep))
+        add("own_support", lambda: X.bin_average(b))
+        return out
     if name == "frame_bin_average":
-        fr = nap.TsdFrame(np.asarray(xd.t), np.stack([xd.values, xd.values * 2], 1), time_support=xd.time_support, columns=["a", "b"])
-        return [fr, fr.bin_average(b, ep), fr.restrict(ep)]
+        fr = as_class(nap, X, "TsdFrame")
+        add("frame", lambda: fr)
+        add("bin_average", lambda: fr.bin_average(b, ep))
+        add("restrict", lambda: fr.restrict(ep))
+        return out
     if name == "interpolate":
-        y = rng.choice(series)
-        return [xd.interpolate(y, ep)]
+        add("ep", lambda: XD.interpolate(y, ep))
+        add("own_support", lambda: XD.interpolate(y))
+        return out
     if name == "convolve":
-        return [xd.convolve(np.array([1.0, 2.0, 1.0])), xd.convolve(np.array([1.0, 1.0]), ep=ep, trim="left")]
+        add("full", lambda: XD.convolve(np.array([1.0, 2.0, 1.0])))
+        add("ep_left", lambda: XD.convolve(np.array([1.0, 1.0]), ep=ep, trim="left"))
+        add("right", lambda: XD.convolve(np.array([1.0, 1.0]), trim="right"))
+        return out
     if name == "smooth":
-        return [xd.smooth(3 * U2 / 1e9, size_factor=4)]
+        add("smooth", lambda: XD.smooth(3 * U2 / 1e9, size_factor=4))
+        return out
     if name == "numpy_ufunc":
-        return [xd * 2 + 1, np.abs(xd), xd > 3]
+        add("mul_add", lambda: XD * 2 + 1)
+        add("abs", lambda: np.abs(XD))
+        add("greater", lambda: XD > 3)
+        add("isnan", lambda: np.isnan(XD))
+        return out
     if name == "numpy_func":
-        return [np.cumsum(xd), np.flip(xd), np.clip(xd, 1, 5)]
+        add("cumsum", lambda: np.cumsum(XD, axis=0))
+        add("flip", lambda: np.flip(XD, axis=0))
+        add("clip", lambda: np.clip(XD, 1, 5))
+        add("roll", lambda: np.roll(XD, 1, axis=0))
+        add("where", lambda: np.where(XD > 1, XD, 0))
+        add("nan_to_num", lambda: np.nan_to_num(XD))
+        add("mean_last_axis", lambda: np.mean(XD, axis=-1) if XD.ndim > 1 else np.mean(XD))
+        add("sum_keepdims", lambda: np.sum(XD, axis=0, keepdims=True))
+        add("diff", lambda: np.diff(XD, axis=0))
+        return out
+    if name == "numpy_shape":
+        add("take", lambda: np.take(XD, [0], axis=0))
+        add("delete", lambda: np.delete(XD, 0, axis=0))
+        add("repeat", lambda: np.repeat(XD, 2, axis=0))
+        add("insert", lambda: np.insert(XD, 0, 0, axis=0))
+        add("append", lambda: np.append(XD, XD))
+        add("tile", lambda: np.tile(XD, 2))
+        add("transpose", lambda: np.transpose(XD))
+        add("squeeze", lambda: np.squeeze(XD))
+        add("expand_dims", lambda: np.expand_dims(XD, -1))
+        add("reshape", lambda: np.reshape(XD, (len(XD), -1)))
+        if XD.ndim > 1:
+            add("hstack", lambda: np.hstack((XD, XD)))
+        add("pad", lambda: np.pad(XD, 1) if XD.ndim == 1 else None)
+        return out
     if name == "concatenate":
-        lo = xd.get(float(xd.t[0]), float(xd.t[len(xd) // 2 - 1])) if len(xd) >= 4 else None
-        hi = xd.get(float(xd.t[len(xd) // 2]), float(xd.t[-1])) if len(xd) >= 4 else None
-        if lo is None or not len(lo) or not len(hi):
-            return []
-        return [np.concatenate((lo, hi))]
+        h = n // 2
+        add("halves_by_slice", lambda: np.concatenate((XD[:h], XD[h:])))
+        if n >= 4:
+            add("halves_by_get", lambda: np.concatenate((XD.get(t0, float(X.t[h - 1])), XD.get(float(X.t[h]), t1))))
+        add("with_empty", lambda: np.concatenate((XD[0:0], XD)))
+        return out
     if name == "split_concat":
-        if len(xd) < 4:
-            return []
-        return list(np.array_split(xd, 2))
+        add("array_split", lambda: list(np.array_split(XD, 2)))
+        add("array_split3", lambda: list(np.array_split(XD, 3)))
+        if n and n % 2 == 0:
+            add("split", lambda: list(np.split(XD, 2)))
+        return out
     if name == "to_tsgroup_to_tsd":
-        lab = nap.Tsd(np.asarray(xd.t), (np.arange(len(xd)) % 3).astype(float), time_support=xd.time_support)
-        g = lab.to_tsgroup()
-        return [g, g.to_tsd()]
+        lab = nap.Tsd(np.asarray(X.t), (np.arange(n) % 3).astype(float), time_support=X.time_support)
+        add("to_tsgroup", lambda: lab.to_tsgroup())
+        add("to_tsgroup_to_tsd", lambda: lab.to_tsgroup().to_tsd())
+        add("ts_to_tsd", lambda: xts.fillna(1.0))
+        return out
     if name == "make_group":
-        y = rng.choice(series)
-        sup = x.time_support.union(y.time_support)
         keys = rng.sample([0, 1, 3, 4, 7, 9], 3)
-        g = nap.TsGroup({keys[0]: nap.Ts(np.asarray(x.t)), keys[1]: nap.Ts(np.asarray(y.t)), keys[2]: nap.Ts(np.asarray(x.t)[::2])}, time_support=sup,
-                        metadata={"lab": [int(k) * 10 for k in sorted(keys)]})
-        return [g]
-    if name in ("tsgroup_restrict", "tsgroup_getby", "merge_group", "trial_count"):
-        groups = [o for o in R.objs + R.extra if isinstance(o, nap.TsGroup) and len(o) >= 2]
+        mem = {keys[0]: nap.Ts(np.asarray(x.t)), keys[1]: nap.Ts(np.asarray(y.t)), keys[2]: nap.Ts(np.asarray(x.t)[::2])}
+        memsup = {keys[0]: xts, keys[1]: as_class(nap, y, "Ts"), keys[2]: xd}
+        sup = x.time_support.union(y.time_support)
+        meta = {"lab": [int(k) * 10 for k in sorted(keys)]}
+        add("explicit_support", lambda: nap.TsGroup(mem, time_support=sup, metadata=meta))
+        add("explicit_other_support", lambda: nap.TsGroup(memsup, time_support=ep))
+        # the DEFAULT support (union of the members' supports); an empty union is rejected by the constructor (RuntimeError)
+        add("default_support", lambda: nap.TsGroup(memsup, metadata=meta))
+        add("default_support_fresh_members", lambda: nap.TsGroup(mem))
+        return out
+    if name in ("tsgroup_restrict", "tsgroup_getby", "merge_group", "trial_count", "randomize_group"):
+        groups = [o for o in R.objs + R.extra if isinstance(o, nap.TsGroup) and len(o) >= 1]
         if not groups:
-            return []
+            return out
         g = rng.choice(groups)   # a LIVE group: snapshots taken around the call cover it
         if name == "tsgroup_restrict":
-            return [g.restrict(ep), g[list(g.keys())[:2]]]
+            add("restrict", lambda: g.restrict(ep))
+            add("select_two", lambda: g[list(g.keys())[:2]])
+            add("member", lambda: g[list(g.keys())[0]])
+            add("get_window", lambda: g.get(t0, t1))
+            return out
         if name == "tsgroup_getby":
-            return [g.getby_threshold("rate", float(np.median(g.rate)), ">="), g[g.rate > 0]]
+            add("getby_threshold", lambda: g.getby_threshold("rate", float(np.nanmedian(g.rate)), ">="))
+            add("bool_index", lambda: g[g.rate > 0])
+            add("to_tsd", lambda: g.to_tsd())
+            return out
         if name == "trial_count":
-            g.trial_count(ep, b)
-            return [g.count(b, ep)]
+            add("trial_count", lambda: g.trial_count(ep, b))
+            add("count_ep", lambda: g.count(b, ep))
+            add("count", lambda: g.count(b))
+            add("value_from", lambda: g.value_from(yd, ep))
+            return out
+        if name == "randomize_group":
+            st = np.random.get_state()
+            seed_ = rng.randrange(2**31)
+
+            def rnd(f):
+                def w():
+                    np.random.seed(seed_)
+                    try:
+                        return f()
+                    finally:
+                        np.random.set_state(st)
+                return w
+            add("shift_timestamps", rnd(lambda: nap.shift_timestamps(g, 0.0, U2 / 1e9)))
+            add("jitter_timestamps", rnd(lambda: nap.jitter_timestamps(g, max_jitter=U2 / 1e9)))
+            add("jitter_timestamps_keep_tsupport", rnd(lambda: nap.jitter_timestamps(g, max_jitter=U2 / 1e9, keep_tsupport=True)))
+            add("resample_timestamps", rnd(lambda: nap.resample_timestamps(g)))
+            add("shuffle_ts_intervals", rnd(lambda: nap.shuffle_ts_intervals(g)))
+            return out
         others = [h for h in groups if h is not g and not (set(h.keys()) & set(g.keys())) and np.array_equal(h.time_support.values, g.time_support.values)]
-        outs = [nap.TsGroup.merge_group(g, g, reset_index=True), nap.TsGroup.merge_group(g, g, reset_index=True, ignore_metadata=True)]
+        add("self_reset_index", lambda: nap.TsGroup.merge_group(g, g, reset_index=True))
+        add("self_reset_index_ignore_metadata", lambda: nap.TsGroup.merge_group(g, g, reset_index=True, ignore_metadata=True))
         if others:
             h = rng.choice(others)
-            outs += [nap.TsGroup.merge_group(g, h), nap.TsGroup.merge_group(h, g, reset_index=True, ignore_metadata=True)]
+            add("same_support", lambda: nap.TsGroup.merge_group(g, h))
+            add("same_support_reset_index", lambda: nap.TsGroup.merge_group(h, g, reset_index=True, ignore_metadata=True))
         # groups with DIFFERENT supports: every combination of the flags (members must end up on the union support)
         diff = [h for h in groups if h is not g and not np.array_equal(h.time_support.values, g.time_support.values)]
         if diff:
@@ -335,45 +537,163 @@ def apply_unmodelled(R, name, rng):
                 for im in (False, True):
                     if not im and list(g.metadata_columns) != list(h.metadata_columns):
                         continue
-                    outs.append(nap.TsGroup.merge_group(g, h, reset_index=ri, reset_time_support=True, ignore_metadata=im))
-        return outs
+                    add("reset_time_support_ri%d_im%d" % (ri, im), lambda ri=ri, im=im: nap.TsGroup.merge_group(g, h, reset_index=ri, reset_time_support=True, ignore_metadata=im))
+        return out
     if name in ("shift", "jitter", "resample", "shuffle"):
-        one = nap.IntervalSet(x.time_support.start[0], x.time_support.end[-1])
-        ts1 = nap.Ts(np.asarray(x.t), time_support=one)
+        # on the series' own (possibly multi-interval, possibly empty) support and on the single interval spanning it
+        cands = [("own_support", xts)]
+        if len(xts.time_support) >= 2:
+            one = nap.IntervalSet(xts.time_support.start[0], xts.time_support.end[-1])
+            cands.append(("single_interval", nap.Ts(np.asarray(xts.t), time_support=one)))
         st = np.random.get_state()
-        np.random.seed(rng.randrange(2**31))
-        try:
+        seed_ = rng.randrange(2**31)
+
+        def rnd(f):
+            def w():
+                np.random.seed(seed_)
+                try:
+                    return f()
+                finally:
+                    np.random.set_state(st)
+            return w
+        for tag, ts1 in cands:
             if name == "shift":
-                return [nap.shift_timestamps(ts1, 0.0, float(one.tot_length()) / 2)]
-            if name == "jitter":
-                return [nap.jitter_timestamps(ts1, max_jitter=U2 / 1e9), nap.jitter_timestamps(ts1, max_jitter=U2 / 1e9, keep_tsupport=True)]
-            if name == "resample":
-                return [nap.resample_timestamps(ts1)]
-            return [nap.shuffle_ts_intervals(ts1)]
-        finally:
-            np.random.set_state(st)
+                half = float(ts1.time_support.tot_length()) / 2 if len(ts1.time_support) else 1.0
+                add("shift_timestamps@" + tag, rnd(lambda ts1=ts1, half=half: nap.shift_timestamps(ts1, 0.0, half)))
+            elif name == "jitter":
+                add("jitter_timestamps@" + tag, rnd(lambda ts1=ts1: nap.jitter_timestamps(ts1, max_jitter=U2 / 1e9)))
+                add("jitter_timestamps_keep_tsupport@" + tag, rnd(lambda ts1=ts1: nap.jitter_timestamps(ts1, max_jitter=U2 / 1e9, keep_tsupport=True)))
+            elif name == "resample":
+                add("resample_timestamps@" + tag, rnd(lambda ts1=ts1: nap.resample_timestamps(ts1)))
+            else:
+                add("shuffle_ts_intervals@" + tag, rnd(lambda ts1=ts1: nap.shuffle_ts_intervals(ts1)))
+        return out
     if name == "perievent":
         ref = nap.Ts(np.asarray(x.t)[::2], time_support=x.time_support)
-        pe = nap.compute_perievent(xd, ref, minmax=(-2 * U2 / 1e9, 2 * U2 / 1e9))
-        return [pe]
+        w = 2 * U2 / 1e9
+        if cls in ("Ts", "Tsd"):
+            add("compute_perievent", lambda: nap.compute_perievent(X, ref, minmax=(-w, w)))
+        if cls != "Ts":
+            add("compute_perievent_continuous", lambda: nap.compute_perievent_continuous(X, ref, minmax=(w, w)))
+            add("compute_perievent_continuous_ep", lambda: nap.compute_perievent_continuous(X, ref, minmax=(w, w), ep=ep))
+        return out
     if name == "slice_index":
-        fr = nap.TsdFrame(np.asarray(xd.t), np.stack([xd.values, xd.values * 2], 1), time_support=xd.time_support, columns=["a", "b"])
-        idx = list(range(len(xd)))
+        idx = list(range(n))
         rng.shuffle(idx)
-        return [xd[1:], xd[::2], xd[0:0], xd[::-1], xd[idx[:3]], fr[::-1], fr[idx[:3]], np.abs(xd[::-1]), xd[idx].get(float(xd.t[0]), float(xd.t[-1]))]
+        add("tail", lambda: X[1:])
+        add("step2", lambda: X[::2])
+        add("empty_slice", lambda: X[0:0])
+        add("reversed", lambda: X[::-1])
+        add("int_list_shuffled", lambda: X[idx[:3]])
+        add("int_list_shuffled_then_get", lambda: X[idx].get(t0, t1))
+        if n:
+            add("single_int", lambda: X[n - 1])
+        add("one_row_slice", lambda: X[0:1])
+        if cls != "Ts":
+            add("abs_reversed", lambda: np.abs(X[::-1]))
+        if cls == "TsdFrame":
+            add("column_int", lambda: X[:, 0])
+            add("column_list", lambda: X[:, [X.shape[1] - 1]])
+            add("rows_and_cols", lambda: X[1:, 0:2])
+        if cls == "TsdTensor":
+            add("first_plane", lambda: X[:, 0])
+            add("element", lambda: X[:, 0, 0])
+            add("last_axis", lambda: X[:, :, 0])
+            add("rows_and_planes", lambda: X[1:, 0:1])
+        return out
     if name == "mask_index":
-        m = np.arange(len(xd)) % 2 == 0
-        return [xd[m]]
+        m = np.arange(n) % 2 == 0
+        add("bool_array", lambda: X[m])
+        add("bool_all_false", lambda: X[np.zeros(n, dtype=bool)])
+        add("bool_tsd", lambda: XD[nap.Tsd(np.asarray(X.t), m, time_support=X.time_support)])
+        return out
     if name == "tsdframe_cols":
-        fr = nap.TsdFrame(np.asarray(xd.t), np.stack([xd.values, xd.values * 2, xd.values * 3], 1), time_support=xd.time_support, columns=["a", "b", "c"])
-        return [fr[["c", "a"]], fr.loc["b"], fr[:, 1:]]
+        fr = as_class(nap, X, "TsdFrame")
+        add("label_list", lambda: fr[["c", "a"]])
+        add("loc", lambda: fr.loc["b"])
+        add("label", lambda: fr["a"])
+        add("positional", lambda: fr[:, 1:])
+        return out
     if name == "find_support":
-        return [x.find_support(2 * U2 / 1e9)]
+        add("find_support", lambda: X.find_support(2 * U2 / 1e9))
+        add("find_support_restrict", lambda: X.restrict(X.find_support(2 * U2 / 1e9)))
+        return out
     if name == "ep_split":
-        return [ep.split(2 * U2 / 1e9)]
+        add("split", lambda: ep.split(2 * U2 / 1e9))
+        return out
     if name == "in_interval":
-        return [ep.in_interval(x)]
+        add("in_interval", lambda: ep.in_interval(X))
+        return out
+    if name == "off_lattice":
+        # timestamps and support edges OFF the lattice: arbitrary float64 instants, edges equal to samples or 0.5 us / 1 us away from them
+        m = rng.randint(0, 7)
+        base = sorted(rng.uniform(0.0, 1.0) for _ in range(m))
+        if m >= 2 and rng.random() < 0.3:
+            base[1] = base[0]
+        tt = np.array(base)
+        edges = set()
+        for v in base:
+            edges.add(v + rng.choice([0.0, 5e-7, -5e-7, 1e-6, -1e-6, 1e-9, -1e-9]))
+        while len(edges) < 6:
+            edges.add(rng.uniform(-0.1, 1.1))
+        ed = sorted(rng.sample(sorted(edges), 2 * rng.randint(1, 3)))
+        if len(ed) >= 4 and rng.random() < 0.4:
+            ed[2] = ed[1] + rng.choice([0.0, 5e-7, 1e-6, 2e-6])      # touching / closer than the 1 us separation
+            ed = sorted(ed)
+        with warnings.catch_warnings():
+            warnings.simplefilter("ignore")
+            sup = nap.IntervalSet(start=np.array(ed[0::2]), end=np.array(ed[1::2]))
+        c2 = rng.choice(CLASSES)
+        Z0 = as_class(nap, nap.Ts(tt), c2) if m else as_class(nap, nap.Ts(np.array([])), c2)
+        add("support", lambda: sup)
+        add("ctor_default_support", lambda: Z0)
+        add("ctor_support", lambda: as_class(nap, nap.Ts(tt, time_support=sup), c2))
+        add("restrict", lambda: Z0.restrict(sup))
+        add("restrict_count", lambda: Z0.restrict(sup).count(1e-1))
+        add("count_ep", lambda: Z0.count(1e-1, sup))
+        add("get", lambda: Z0.get(ed[0], ed[-1]))
+        add("restrict_union_own", lambda: Z0.restrict(sup.union(Z0.time_support)))
+        add("restrict_intersect_own", lambda: Z0.restrict(sup.intersect(Z0.time_support)))
+        add("restrict_diff", lambda: Z0.restrict(Z0.time_support.set_diff(sup)))
+        if c2 != "Ts":
+            add("bin_average", lambda: Z0.bin_average(1e-1, sup))
+            add("concatenate_restrictions", lambda: np.concatenate([Z0.restrict(sup[i]) for i in range(len(sup))]))
+            add("dropna", lambda: Z0.restrict(sup).dropna())
+        else:
+            add("group_default_support", lambda: nap.TsGroup({0: Z0.restrict(sup), 1: Z0}))
+        return out
+    return out
+
+
+def flatten_outputs(nap, y):
+    """the library objects held by a result (an object, or a list / tuple / dict of objects)"""
+    if isinstance(y, (nap.Ts, nap.Tsd, nap.TsdFrame, nap.TsdTensor, nap.TsGroup, nap.IntervalSet)):
+        return [y]
+    if isinstance(y, dict):
+        return [z for v in y.values() for z in flatten_outputs(nap, v)]
+    if isinstance(y, (list, tuple)):
+        return [z for v in y for z in flatten_outputs(nap, v)]
     return []
+
+
+def run_unmodelled(R, name, rng, exc=None, info=None):
+    """runs every call of one unmodelled operation; an exception of one call does not discard the results of the others.
+    returns [(sub-operation label, object)]; exceptions are appended to `exc` as (label, text)"""
+    outs = []
+    for sub, f in unmodelled_calls(R, name, rng, info):
+        try:
+            y = f()
+        except Exception as ex:  # no object is produced
+            if exc is not None:
+                exc.append(("unmodelled:%s/%s" % (name, sub), type(ex).__name__ + ": " + str(ex)[:200]))
+            continue
+        outs.extend((sub, z) for z in flatten_outputs(R.nap, y))
+    return outs
+
+
+def apply_unmodelled(R, name, rng):
+    """the result objects of one unmodelled operation (interface used by C10's mutating histories)"""
+    return [o for _, o in run_unmodelled(R, name, rng)]
 
 
 def run_history(nap, seed, hid, length, n_unmodelled, with_snapshots=False):
@@ -381,8 +701,8 @@ def run_history(nap, seed, hid, length, n_unmodelled, with_snapshots=False):
     rng = random.Random(seed * 1000003 + hid)
     ops = gen_history(rng, length)
     R = Real(nap)
-    codes, abstracts, wf_fail, snap_fail, exc, unm_done = [], [], [], [], [], []
-    live_snaps = []
+    codes, abstracts, wf_fail, snap_fail, exc, unm_done, unm_inputs, skipped, wf_keys = [], [], [], [], [], [], [], [], []
+    n_checked = 0
 
     def guard(label, f):
         before = [snapshot(nap, o) for o in R.objs + R.extra] if with_snapshots else None
@@ -399,6 +719,8 @@ def run_history(nap, seed, hid, length, n_unmodelled, with_snapshots=False):
         return res
 
     for step, op in enumerate(ops):
+        if op[0] == "TS" and len(R.ep_of(op[1][0])) == 0:
+            skipped.append("time_span_of_empty_set")
         r = guard("op%d:%s" % (step, op[0]), lambda: apply_real(R, op, rng))
         if r is None:
             break
@@ -406,18 +728,26 @@ def run_history(nap, seed, hid, length, n_unmodelled, with_snapshots=False):
         R.objs.append(o)
         codes.append(code)
         abstracts.append(norm_abs(abstract(nap, o)))
-        w = wf_oracle(nap, o)
+        w = wf_check(nap, o)
+        n_checked += 1
         if w:
-            wf_fail.append(("op%d:%s" % (step, op[0]), w, code))
+            wf_fail.append(("op%d:%s" % (step, op[0]), w[1], code))
+            wf_keys.append({"op": op[0], "family": "modelled", "variant": None, "clause": w[0], "result": class_name(nap, o), "zero_span_default_support": w[2],
+                            "zero_span_input": None})
         # interleave unmodelled operations
         if n_unmodelled and step >= 2 and rng.random() < n_unmodelled:
             name = rng.choice(UNMODELLED)
-            outs = guard("unmodelled:" + name, lambda: apply_unmodelled(R, name, rng))
+            info = {}
+            outs = guard("unmodelled:" + name, lambda: run_unmodelled(R, name, rng, exc, info))
             unm_done.append(name)
-            for y in outs or []:
-                if isinstance(y, (nap.Ts, nap.Tsd, nap.TsdFrame, nap.TsdTensor, nap.TsGroup, nap.IntervalSet)):
-                    R.extra.append(y)
-                    w = wf_oracle(nap, y)
-                    if w:
-                        wf_fail.append(("unmodelled:" + name, w, None))
-    return {"codes": codes, "abstracts": abstracts, "wf": wf_fail, "snap": snap_fail, "exc": exc, "ops": ops, "unmodelled": unm_done}
+            unm_inputs.append(info)
+            for sub, y in outs or []:
+                R.extra.append(y)
+                w = wf_check(nap, y)
+                n_checked += 1
+                if w:
+                    wf_fail.append(("unmodelled:%s/%s" % (name, sub), w[1], None))
+                    wf_keys.append({"op": sub.split("@")[0], "family": name, "variant": sub.split("@")[1] if "@" in sub else None, "clause": w[0],
+                                    "result": class_name(nap, y), "zero_span_default_support": w[2], "zero_span_input": info.get("zero_span_input")})
+    return {"codes": codes, "abstracts": abstracts, "wf": wf_fail, "snap": snap_fail, "exc": exc, "ops": ops, "unmodelled": unm_done,
+            "unmodelled_inputs": unm_inputs, "skipped": skipped, "n_checked": n_checked, "wf_keys": wf_keys}
